@@ -238,6 +238,37 @@ func (s *PathState) Selected(v ssa.Value) ssa.Value {
 	return v
 }
 
+// selectedNoUse is Selected without recording a fact use.
+func (s *PathState) selectedNoUse(v ssa.Value) ssa.Value {
+	for i := 0; i < 6; i++ {
+		phi, ok := v.(*ssa.Phi)
+		if !ok || s == nil {
+			return v
+		}
+		a, ok := s.alias[phi]
+		if !ok {
+			return v
+		}
+		v = a
+	}
+	return v
+}
+
+// funcValueNonNil: a closure, a bound method value or a named function (possibly behind a change of function type).
+func funcValueNonNil(v ssa.Value) bool {
+	for i := 0; i < 4; i++ {
+		switch x := v.(type) {
+		case *ssa.ChangeType:
+			v = x.X
+			continue
+		case *ssa.MakeClosure, *ssa.Function:
+			return true
+		}
+		return false
+	}
+	return false
+}
+
 // FactsOnEdge is an.FactsOnEdge refined by the path: when the branch tests a boolean phi (a condition computed as a
 // value, `ok := a || b; if ok {…}`), the operand the phi took on this path is what the branch decided.
 func (s *PathState) FactsOnEdge(e Edge) []Fact {
@@ -702,6 +733,13 @@ func (s *PathState) evalBool(v ssa.Value, depth int) (val, known bool) {
 					return x.Op == token.NEQ, true
 				}
 				if KnownNonNil(other) {
+					return x.Op == token.NEQ, true
+				}
+				// a function value the path selected (`h = p.FIN` … `if h == nil`): a method value or function is never nil
+				if sel := s.selectedNoUse(other); sel != other && funcValueNonNil(sel) {
+					return x.Op == token.NEQ, true
+				}
+				if funcValueNonNil(other) {
 					return x.Op == token.NEQ, true
 				}
 				if c, ok := s.constOf(other); ok && c == nonNilMarker {
